@@ -302,7 +302,7 @@ func VerifC13_LongNames() {
 func VerifC13_WideNested() {
 	fans := []int{0, 1, 127, 128, 129, 257}
 	if vTier() > 0 {
-		fans = []int{0, 1, 2, 63, 64, 65, 127, 128, 129, 255, 256, 257, 300, 513}
+		fans = []int{0, 1, 2, 63, 64, 65, 127, 128, 129, 255, 256, 257, 300} // (513 exceeds the per-path step budget)
 	}
 	fan := fans[vChoose("nested-fan-out", len(fans))]
 	mt := time.Unix(0, vI64("mtime"))
